@@ -147,6 +147,39 @@ def field_diff(a, b):
     return [n for n, sh, l in groups if (x >> sh) & ((1 << l) - 1)][0]
 
 
+def special_field_words():
+    """instructions whose operands are not general registers (segment / special-purpose / time-base registers, CR fields and bits, field
+    masks, trap conditions): every value of the special field, judged word by word against the same baseline - their buckets hold so many
+    existing renderer / assembler defects that a new one would not change any signature"""
+    X = lambda xo, a=0, b=0, c=0, rc=0, po=31: (po << 26) | (a << 21) | (b << 16) | (c << 11) | (xo << 1) | rc
+    out = []
+    for sr in range(16):
+        for r in (0, 3, 31):
+            out += [X(210, r, sr), X(595, r, sr), X(242, r, 0, 5), X(659, r, 0, 5)]       # mtsr mfsr mtsrin mfsrin
+    for spr in range(1024):
+        out += [X(467, 3) | (spr << 11), X(339, 3) | (spr << 11), X(371, 3) | (spr << 11)]      # mtspr mfspr mftb
+    for bf in range(8):
+        for bfa in range(8):
+            out += [X(0, bf << 2, bfa << 2, po=19), X(64, bf << 2, bfa << 2, po=63)]         # mcrf mcrfs
+        for l in (0, 1):
+            out += [X(0, (bf << 2) | l, 3, 4), X(32, (bf << 2) | l, 3, 4), (11 << 26) | (((bf << 2) | l) << 21) | (3 << 16) | 0x7FFF, (10 << 26) | (((bf << 2) | l) << 21) | (3 << 16) | 0x8000]
+        out += [X(512, bf << 2), X(0, bf << 2, 1, 2, po=63), X(32, bf << 2, 1, 2, po=63)]       # mcrxr fcmpu fcmpo
+        for u in range(16):
+            out.append(X(134, bf << 2, 0, u << 1, po=63))                                  # mtfsfi
+    for m in range(256):
+        out += [X(144, 3) | (m << 12), X(711, 0, 0, 0, po=63) | (m << 17) | (5 << 11)]       # mtcrf mtfsf
+    for xo in (257, 129, 193, 225, 33, 449, 289, 417):
+        for bt in (0, 1, 5, 31):
+            for ba in (0, 2, 31):
+                for bb in (0, 3, 31):
+                    out.append(X(xo, bt, ba, bb, po=19))                                    # CR logical operations
+    for to in range(32):
+        out += [X(4, to, 3, 4), (3 << 26) | (to << 21) | (3 << 16) | 0x10]                  # tw twi
+    for bt in range(32):
+        out += [X(70, bt, po=63), X(38, bt, po=63), X(70, bt, rc=1, po=63)]                 # mtfsb0 mtfsb1
+    return sorted(set(out))
+
+
 def branch_words():
     """the deterministic branch sub-space judged word by word against baselines/c18_branches.json"""
     out = []
@@ -379,14 +412,14 @@ def main(run):
     if bad:
         raise runner.Inconclusive("reference opcode map disagrees with llvm-mc: %s" % bad[:5])
     run.extra["reference_entries_confirmed_by_llvm"] = n
-    bw = branch_words()
+    bw = branch_words() + special_field_words()
     if os.environ.get("VERIF_C18_WRITE_BASELINE"):
         # developer mode: regenerate the committed baseline from the unchanged tree
         with runner.quiet():
             failing = sorted("%08x" % w for w in bw if judge(w)[0] == "fail")
         os.makedirs(os.path.dirname(BASELINE), exist_ok=True)
         with open(BASELINE, "w") as f:
-            json.dump({"what": "conditional-branch words (bc: all BO x BI x 6 displacements x AA x LK; bclr / bcctr: all BO x BI x BH x LK) that fail some clause of C18 on the unchanged tree", "failing": failing}, f, indent=0)
+            json.dump({"what": "conditional-branch words (bc: all BO x BI x 6 displacements x AA x LK; bclr / bcctr: all BO x BI x BH x LK) and special-field words (every SR / SPR / TBR / CR field / FXM / FLM / TO value) that fail some clause of C18 on the unchanged tree", "failing": failing}, f, indent=0)
         print("wrote %d failing of %d branch words" % (len(failing), len(bw)))
     run.extra["branch_words"] = len(bw)
     run.extra["baseline_failing_branch_words"] = len(baseline())
